@@ -256,6 +256,52 @@ func TestVerif_C14(t *testing.T) {
 				}
 			}
 		}
+		// a large batch (hundreds of events): faults at sampled calls, in particular
+		// late ones, must still leave nothing of the batch behind
+		if i%8 == 0 {
+			var batch []*mocrelay.Event
+			for k, n := 0, 520+r.IntN(200); k < n; k++ {
+				batch = append(batch, g.Next())
+			}
+			fg.Events = g.Offered
+			if keyCollision(d.seed, g.Offered) {
+				return
+			}
+			ncalls := c14CountCalls(ctx, path, batch, d)
+			hist = append(hist, fmt.Sprintf("large batch of %d events, %d driver calls", len(batch), ncalls))
+			if ncalls > 10 {
+				for _, k := range []int{ncalls, ncalls - 2, ncalls * 97 / 100, ncalls * 9 / 10, ncalls * 85 / 100, ncalls / 2, 7, 1} {
+					for _, mode := range []faultsql.Mode{faultsql.ModeError, faultsql.ModeCancel} {
+						cctx, cancel := context.WithCancel(ctx)
+						d.plan.Arm(k, mode, cancel)
+						err := insertEvents(cctx, d.db, d.seed, batch)
+						cancel()
+						_, kinds, fired := d.plan.Disarm()
+						if !fired {
+							continue
+						}
+						stage := fmt.Sprintf("a %s fault at driver call %d of %d (%s) of a %d-event batch", []string{"error", "cancel"}[mode], k, ncalls, kinds[len(kinds)-1], len(batch))
+						if err == nil {
+							model.InsertBatch(batch)
+						}
+						hist = append(hist, fmt.Sprintf("  %s: returned error=%v", stage, err != nil))
+						rep.Count("large_batch_faults", 1)
+						rep.Nontrivial(fmt.Sprintf("large/%d/%d/%d", mode, k*20/ncalls, len(batch)/100))
+						if !verify(stage, nil) {
+							return
+						}
+					}
+				}
+				if err := insertEvents(ctx, d.db, d.seed, batch); err != nil {
+					rep.Violation("insert/error", "large batch failed without a fault: "+err.Error(), wit(nil))
+					return
+				}
+				model.InsertBatch(batch)
+				if !verify("the large batch applied", nil) {
+					return
+				}
+			}
+		}
 		// kill faults: a fresh batch, killed in a child process at call k
 		for kk := 0; kk < killsPerBatch; kk++ {
 			var batch []*mocrelay.Event
@@ -486,6 +532,7 @@ func TestVerif_C14(t *testing.T) {
 	rep.Require(rep.Counter("batches_fault_enumerated") >= int64(nHist*8/10), "fault-enumerated batches")
 	rep.Require(rep.Counter("faults_error") > 500 && rep.Counter("faults_cancel") > 500, "fault counts")
 	rep.Require(rep.Counter("kills") >= int64(nHist), "kill runs")
+	rep.Require(rep.Counter("large_batch_faults") >= int64(nHist/8*6), "large-batch faults")
 	rep.Require(rep.Counter("reopens") > 5, "reopens")
 	rep.Require(rep.SetSize("fault_points") >= 20, "fault point kinds (mode x call kind)")
 	rep.Require(rep.Counter("handler_retries_after_fault") >= 1, "handler retry cases")
